@@ -135,6 +135,7 @@ var uris = []string{
 	"http://127.0.0.1:8/cb",
 	"https://rp.example/cb?flag&x=%26%3D+1",
 	"https://rp.example/a%2Fb/cb",
+	"https://rp.example/cb?q=\"><script>alert(1)</script>&r='+onfocus='x", // registered verbatim by a careless client
 }
 
 var (
